@@ -815,7 +815,7 @@ def st_optional(draw, n, for_altloc=False):
             st.lists(st.sampled_from(edges), min_size=n, max_size=n),
         ))
     if draw(st.booleans()):
-        opt["charge"] = draw(st.lists(st.sampled_from([0, 0, 0, 1, -1, 2, -2, 9, -9, 5]), min_size=n, max_size=n))
+        opt["charge"] = draw(st.lists(st.sampled_from([0, 0, 0, 1, -1, 2, -2, 9, -9, 5, 10, -12, 25, -100]), min_size=n, max_size=n))
     if draw(st.integers(0, 3)) == 0:
         opt["entity"] = draw(st.lists(st.integers(1, 5), min_size=n, max_size=n))
     if draw(st.booleans()):
@@ -1157,7 +1157,7 @@ def st_altloc(tier):
                 k = 2 if whole else (1 if plain else draw(st.sampled_from([2, 1, 3, 1, 2])))
                 if k == 1:
                     atoms.append([an, el])
-                    alt.append(draw(st.sampled_from([".", ".", ".", "?"])) if not whole else letters[0])
+                    alt.append(draw(st.sampled_from([".", ".", ".", "?", "A"])) if not whole else letters[0])
                 else:
                     for c in range(k):
                         atoms.append([an, el])
@@ -1201,6 +1201,14 @@ def st_altloc(tier):
                     break
                 first = next(i for i in range(s, e) if alt[i] not in (".", "?"))
                 occ[first] += 1
+        # residues whose alternate locations all carry one single id may have occupancy 0 throughout
+        # (no tie is possible there): the id still has to be kept
+        for s, e in residue_spans(fl):
+            ids = {alt[i] for i in range(s, e) if alt[i] not in (".", "?")}
+            if len(ids) == 1 and draw(st.sampled_from([False, True])):
+                for i in range(s, e):
+                    if alt[i] not in (".", "?"):
+                        occ[i] = 0
         base["alt"] = alt
         base["occ"] = occ  # hundredths
         base["occ_via"] = draw(st.sampled_from(["annotation", "edit", "absent"]))
